@@ -174,8 +174,10 @@ CHECKS = {
                      "bound) and childiter(children) is non-empty, holding in order an export of each such child one level deeper; "
                      "the start node is always exported; all options are passed unchanged to every level.",
                 tech="contract-based deductive verification with observers on fresh values and a recursive predicate (z3)",
-                note="DictImporter (import_/__import) and the two round-trip sentences (L9) are NOT under contract: covered by the "
-                     "BOUNDED stand-in run in both tiers (evidence.bounded_parts), never counted as proved."),
+                note="DictImporter.__import is under an effect-log contract (argument copied and never written, 'children' popped from the "
+                     "copy, one node constructed from the remaining attributes, every child imported in order under it); that the "
+                     "result is isomorphic and the two round-trip sentences (L9) are covered by the BOUNDED stand-in run in both tiers "
+                     "(evidence.bounded_parts), never counted as proved."),
 }
 REASONS = {}
 
